@@ -28,7 +28,7 @@ from .common import E1_ASSUMPTIONS, E1_COMPONENTS, remove_outputs, viol
 ID = "C17"
 LEVEL = "exploration"
 TIERS = {
-    "quick": {"shards": 128, "examples": 16, "det_shards": 2},
+    "quick": {"shards": 128, "examples": 32, "det_shards": 2},
     "thorough": {"shards": 2048, "examples": 40, "det_shards": 8},
 }
 RULE = ("case = history: 1-3 small worlds and <= 8 operations (run / run_many with the world of interest first, last or in "
@@ -283,9 +283,13 @@ def evaluate(spec, ctx):
                 record(w, "file:" + rel, opi, {pname: got_pages[pname]} if pname in got_pages else {}, op)
             elif op["op"] == "run_files":
                 # several lone files of the world in one call, each must come out as if documented alone
-                cmf = sorted(f for f in refs.tree_files(spec["worlds"][w]["tree"]) if refs.is_cmake(f))
+                wt = spec["worlds"][w]["tree"]
+                cmf = sorted(f for f in refs.tree_files(wt) if refs.is_cmake(f))
+                # byte-identical modules first: they are the ones that could share anything
+                texts_ = [wt[f] for f in cmf]
+                cmf = sorted(cmf, key=lambda f: (texts_.count(wt[f]) < 2, f))
                 stems_seen, chosen = set(), []
-                start = op.get("f", 0)
+                start = op.get("f", 0) if op.get("f", 0) % 2 else 0
                 for j in range(len(cmf)):
                     rel = cmf[(start + j) % len(cmf)]
                     st_ = refs.stem(posixpath.basename(rel))
